@@ -141,6 +141,9 @@ var c01Twins = [][]string{
 	{"{{ gints|sort|join(',') }}", "{{ gints|join(';') }}", "{{ gints|reverse|join(',') }}", "{{ gints|first }}{{ gints|last }}", "{{ gints|merge([1])|join(',') }}|{{ gints|length }}"},
 	{"{{ gstrs|sort|join(',') }}", "{{ gstrs|join(';') }}", "{{ gstrs|reverse|join(',') }}", "{{ gfl|sort|join(',') }}", "{{ gfl|join(';') }}", "{{ gstrs|slice(1)|merge(['z'])|join }}|{{ gstrs|length }}"},
 	{"{{ glist|sort|join(',') }}", "{{ glist|join(';') }}", "{{ glist|reverse|join(',') }}", "{{ glist|merge([9])|join(',') }}", "{{ glist|slice(0, 2)|merge([8])|join(',') }}|{{ glist|join }}", "{% set glist = glist|merge([7]) %}{{ glist|join }}"},
+	// one struct type that some templates meet as a value and others through a pointer, with methods on either receiver:
+	// what the process remembers about (type, name) must not depend on which of the two it met first
+	{"{{ acctV.Greeting }}|{{ acctV.Name }}", "{{ acctP.Greeting }}|{{ acctP.Name }}", "{{ acctV.Label }}", "{{ acctP.Label }}|{{ acctP.Greeting }}", "{% for a in accts %}{{ a.Greeting }}{{ a.Label }};{% endfor %}", "{% for a in acctPs %}{{ a.Greeting }}{{ a.Label }};{% endfor %}"},
 	{"{{ gmap|keys|join(',') }}", "{{ gmap|merge({'z': 26})|keys|join(',') }}", "{{ gmap.list|sort|join }}|{{ gmap.list|join }}", "{{ gmap.list|join }}", "{% for k, v in gmap %}{{ k }};{% endfor %}", "{{ gmap|json_encode }}"},
 }
 
@@ -316,6 +319,10 @@ func c01NewEngine(st *c01Engine) (*twig.Engine, *twig.ArrayLoader) {
 	e.AddGlobal("linkTail", tail)
 	e.AddGlobal("linkHead", c01Link{Name: "head", Next: &c01Link{Name: "mid", Next: &tail}})
 	e.AddGlobal("links", []c01Link{tail, {Name: "h2", Next: &tail}})
+	e.AddGlobal("acctV", c01Acct{Name: "Ann"})
+	e.AddGlobal("acctP", &c01Acct{Name: "Bob"})
+	e.AddGlobal("accts", []c01Acct{{Name: "c"}, {Name: "d"}})
+	e.AddGlobal("acctPs", []*c01Acct{{Name: "e"}, {Name: "f"}})
 	// every engine has a security policy (it only matters inside `include ... sandboxed`)
 	// (engine 0 extends the default policy in place, the way the documentation shows; engine 1 uses the default policy
 	// as it comes; engine 2 replaces the allow-lists: what one engine allows is no other engine's business)
@@ -427,6 +434,11 @@ type c01Link struct {
 	Name string
 	Next *c01Link
 }
+
+type c01Acct struct{ Name string }
+
+func (a *c01Acct) Greeting() string { return "hello " + a.Name }
+func (a c01Acct) Label() string     { return "<" + a.Name + ">" }
 
 type c01Struct struct {
 	Name  string
